@@ -59,8 +59,8 @@ Definition explain (lines : list (list N)) (o : obs) : N :=
   let r := o_rng o in
   let ln := line_at lines (sl r) in
   let reqln := line_at lines (o_pl o) in
-  if (4294967295 <=? el r) || (4294967295 <=? ec r) then 1%N                         (* directive_range_end_unset *)
-  else if negb (o_feat o =? 10)%N &&                                                  (* completion edits are computed in UTF-16 units: not this finding *)
+  (* bit 1 (directive_range_end_unset) was repaired in /repo 46ef8ab and is not explained any more *)
+  if negb (o_feat o =? 10)%N &&                                                  (* completion edits are computed in UTF-16 units: not this finding *)
           (has_nonbmp ln || has_nonbmp (line_at lines (el r))) &&
           (obs_mask lines (mkObs (o_feat o) (o_pl o) (o_pc o) (as_rune_columns lines r) (o_text o) (o_code o)) =? 0)%N
        then 2%N                                                                        (* nonbmp_rune_columns: right when read as rune columns *)
